@@ -14,7 +14,9 @@ inductive Method where
   | pwChange                    -- password with the change flag: `change_password(user, old, new)`
   | pkProbe                     -- publickey without signature
   | pkSig (sigOK : Bool)        -- publickey with a signature; `sigOK`: it verifies over session id ‖ this request
-  | hostSig (sigOK : Bool)      -- hostbased; `sigOK` as above (the signed request names client host and client user)
+  | hostSig (sigOK : Bool) (key : Nat)
+                                -- hostbased, presenting host key `key`; `sigOK` as above (the signed request names
+                                -- the client host - `Req.cred` - and the client user)
   | kbdint                      -- keyboard-interactive
   | unknown
   deriving Repr, DecidableEq
@@ -28,7 +30,7 @@ inductive KbdAns where
 structure Req where
   user : Nat
   method : Method
-  cred : Nat                    -- password or key identity
+  cred : Nat                    -- password or key identity; hostbased: the client host the request names
   deriving Repr, DecidableEq
 
 /-- the application's (deterministic) decisions -/
@@ -43,8 +45,11 @@ structure App where
   pwExpired : Nat → Nat → Bool := fun _ _ => false    -- `validate_password` raises PasswordChangeRequired
   chpwOK : Nat → Nat → Bool := fun _ _ => false       -- `change_password(user, old, _)`
   chpwExpired : Nat → Nat → Bool := fun _ _ => false  -- `change_password` raises PasswordChangeRequired
-  hostKeyOK : Nat → Bool := fun _ => false            -- `validate_host_public_key` for the key of credential c
+  hostKeyOK : Nat → Nat → Bool := fun _ _ => false    -- host key `k` is trusted for client host `h`: an entry of
+                                                      -- `known_client_hosts` matching h, or `validate_host_public_key`
   hostUserOK : Nat → Nat → Bool := fun _ _ => false   -- `validate_host_based_user(user, client host, client user)`
+  trustClientHost : Bool := true                      -- option `trust_client_host`
+  resolvedHost : Nat := 0                             -- what the reverse lookup of the peer address gives
   kbdStart : Nat → KbdAns := fun _ => .reject         -- `get_kbdint_challenge(user)`
   kbdNext : Nat → Nat → KbdAns := fun _ _ => .reject  -- `validate_kbdint_response(user, responses)`
 
@@ -61,7 +66,9 @@ inductive Call where
   | checkPw (user cred : Nat) (ok : Bool)
   | checkKey (ctx user key : Nat) (keyOk : Bool) (sig : Option Bool)   -- `ctx`: whose authorized keys were consulted
   | checkChPw (user cred : Nat) (ok : Bool)
-  | checkHost (user cred : Nat) (keyOk sigOk : Bool) (userOk : Option Bool)
+  | checkHost (user keyHost userHost key : Nat) (keyOk sigOk : Bool) (userOk : Option Bool)
+                                -- `keyHost`: the host the key was looked up for; `userHost`: the host the application
+                                -- was asked about
   | kbd (user : Nat) (resp : Option Nat) (ans : KbdAns)
   deriving Repr, DecidableEq
 
@@ -95,6 +102,8 @@ structure St where
   log : List Call := []
   nBegin : Nat := 0
   nVal : Nat := 0
+  keyOpts : Option Nat := none           -- whose options `_key_options` holds: those of key k's authorized_keys entry
+  hostsSeen : List Nat := []             -- pre-repair code only: client hosts looked up in `known_client_hosts` so far
   deriving Repr
 
 inductive Ev where
@@ -113,6 +122,11 @@ def sendSuccess (s : St) : St :=
 
 def sendFailure (s : St) : St := { s with out := s.out ++ [.failure], auth := none }
 
+/-- `validate_host_based_auth`: the client host a hostbased request is decided for — the name in the request only
+    when `trust_client_host` is set, else the reverse lookup of the peer address.  The host key is looked up for this
+    host and (since the repair of A-C05 D3) the application is asked about this host. -/
+def effHost (app : App) (r : Req) : Nat := if app.trustClientHost then r.cred else app.resolvedHost
+
 /-- `lookup_server_auth(conn, conn._username, method, packet)` and the start of the new auth object's task,
     up to its validator call -/
 def createAuth (app : App) (s : St) (r : Req) : St :=
@@ -123,10 +137,13 @@ def createAuth (app : App) (s : St) (r : Req) : St :=
     | some u =>
       match r.method with
       | .none | .unknown => sendFailure s
-      | .hostSig sigOK =>
-        -- host key and signature are checked synchronously, before the application is asked about the user
-        if app.hostKeyOK r.cred && sigOK then { s with auth := some ⟨u, r, s.nVal, true, none⟩, nVal := s.nVal + 1 }
-        else sendFailure { s with log := s.log ++ [.checkHost u r.cred (app.hostKeyOK r.cred) sigOK none] }
+      | .hostSig sigOK key =>
+        -- host key and signature are checked synchronously, before the application is asked about the user; the
+        -- keys trusted are those of THIS request's client host only (`_match_known_hosts` rebuilds the set)
+        if app.hostKeyOK (effHost app r) key && sigOK then
+          { s with auth := some ⟨u, r, s.nVal, true, none⟩, nVal := s.nVal + 1 }
+        else sendFailure { s with log := s.log ++ [.checkHost u (effHost app r) (effHost app r) key
+                                                      (app.hostKeyOK (effHost app r) key) sigOK none] }
       | _ => { s with auth := some ⟨u, r, s.nVal, true, none⟩, nVal := s.nVal + 1 }
 
 /-- continuation of `_finish_userauth` after `begin_auth` answered -/
@@ -138,14 +155,15 @@ def afterBegin (app : App) (s : St) (calledUser : Nat) (r : Req) : St :=
 def keyCtx (app : App) (s : St) (a : AuthObj) : Nat :=
   if app.perUserKeys then s.begun.getD a.user else a.user
 
-/-- `_process_userauth_request` in the repaired code: a new request aborts what is in progress -/
+/-- `_process_userauth_request` in the repaired code: a new request aborts what is in progress and forgets the
+    options of whatever key an earlier request looked at (`reset_key_options`) -/
 def onReq (app : App) (s : St) (r : Req) : St :=
   if s.closed then s
   else if s.complete.isSome then
     (if s.final then { s with closed := true } else s)
   else
     let beginAuth := s.begun != some r.user
-    let s1 := { s with username := some r.user, seq := s.seq + 1, auth := none }
+    let s1 := { s with username := some r.user, seq := s.seq + 1, auth := none, keyOpts := none }
     if beginAuth then
       -- the configuration (and authorized keys) are reloaded for this user: authentication is no longer begun for
       -- anybody until begin_auth has answered
@@ -185,10 +203,12 @@ def onValDone (app : App) (s : St) (k : Nat) : St :=
           let ok := app.chpwOK a.user a.req.cred
           let s1 := { s with log := s.log ++ [.checkChPw a.user a.req.cred ok] }
           if ok then sendSuccess s1 else sendFailure s1
-      | .hostSig sigOK =>
-        let ok := app.hostUserOK a.user a.req.cred
-        let s1 := { s with log := s.log ++ [.checkHost a.user a.req.cred (app.hostKeyOK a.req.cred) sigOK (some ok)] }
-        if app.hostKeyOK a.req.cred && sigOK && ok then sendSuccess s1 else sendFailure s1
+      | .hostSig sigOK key =>
+        -- the application is asked about the host the key was validated for
+        let h := effHost app a.req
+        let ok := app.hostUserOK a.user h
+        let s1 := { s with log := s.log ++ [.checkHost a.user h h key (app.hostKeyOK h key) sigOK (some ok)] }
+        if app.hostKeyOK h key && sigOK && ok then sendSuccess s1 else sendFailure s1
       | .kbdint =>
         let ans := match a.resp with
           | none => app.kbdStart a.user
@@ -198,14 +218,19 @@ def onValDone (app : App) (s : St) (k : Nat) : St :=
         | .accept => sendSuccess s1
         | .reject => sendFailure s1
         | .challenge => { s1 with out := s1.out ++ [.infoReq], auth := some { a with awaiting := false } }
+      -- publickey: the key's options are stored as soon as the key is found acceptable, before the signature is
+      -- looked at (`_validate_client_public_key`)
       | .pkProbe =>
         let ok := app.keyOK (keyCtx app s a) a.req.cred
-        let s1 := { s with log := s.log ++ [.checkKey (keyCtx app s a) a.user a.req.cred ok none] }
-        if ok then { s1 with out := s1.out ++ [.pkOk], auth := some { a with awaiting := false } } else sendFailure s1
+        let s1 : St := { s with log := s.log ++ [.checkKey (keyCtx app s a) a.user a.req.cred ok none] }
+        if ok then { s1 with out := s1.out ++ [.pkOk], auth := some { a with awaiting := false },
+                             keyOpts := some a.req.cred }
+        else sendFailure s1
       | .pkSig sigOK =>
         let ok := app.keyOK (keyCtx app s a) a.req.cred
-        let s1 := { s with log := s.log ++ [.checkKey (keyCtx app s a) a.user a.req.cred ok (some sigOK)] }
-        if ok && sigOK then sendSuccess s1 else sendFailure s1
+        let s1 : St := { s with log := s.log ++ [.checkKey (keyCtx app s a) a.user a.req.cred ok (some sigOK)] }
+        if ok && sigOK then sendSuccess { s1 with keyOpts := some a.req.cred }
+        else sendFailure { s1 with keyOpts := if ok then some a.req.cred else s.keyOpts }
       | _ => s
 
 /-- a method-specific message (60..79): handed to the current auth object, fatal without one -/
@@ -217,9 +242,10 @@ def onInfo (s : St) (c : Nat) : St :=
     | some a =>
       match a.req.method with
       | .kbdint =>
-        -- `create_task` cancels the object's running task (a pending challenge or validation) and validates
-        -- this response
-        { s with auth := some { a with valIdx := s.nVal, awaiting := true, resp := some c }, nVal := s.nVal + 1 }
+        -- a response is only legal as the answer to an INFO_REQUEST (`_info_requested`): while the challenge or
+        -- the validation of an earlier response is still pending it is a protocol error
+        if a.awaiting then { s with closed := true }
+        else { s with auth := some { a with valIdx := s.nVal, awaiting := true, resp := some c }, nVal := s.nVal + 1 }
       | _ => { s with out := s.out ++ [.unimpl] }
 
 def onAuthMsg (s : St) : St :=
@@ -239,7 +265,110 @@ def step (app : App) (s : St) : Ev → St
 
 def run (app : App) (evs : List Ev) : St := evs.foldl (step app) {}
 
-/-! ### the code before the repairs (kept to state the witnesses of defect F1 and of its second form) -/
+/-! ### the code before the repairs of the audit findings A-C05 D1, D2, D3 and A-C06 #1
+
+`Quirks` switches the four pre-repair behaviours on one by one; `stepQ {}` is `step` (Props/C05.lean,
+`stepQ_none`), the witnesses there run `stepQ` with one quirk each. -/
+
+structure Quirks where
+  /-- D2: `_match_known_hosts` ADDED the keys matching the named host to `_trusted_host_keys` -/
+  trustedKeysAccumulate : Bool := false
+  /-- D3: `validate_host_based_user` was passed the host name written in the request -/
+  claimedHostToApp : Bool := false
+  /-- A-C06 #1: `_process_info_response` accepted a response whenever keyboard-interactive was in progress,
+      cancelling the pending challenge or validation -/
+  earlyInfoResponse : Bool := false
+  /-- D1: `_key_options` was never reset -/
+  staleKeyOptions : Bool := false
+  deriving Repr, DecidableEq
+
+/-- is `key` trusted for host `h`: pre-repair, also when it matched any host looked up earlier on the connection -/
+def keyTrustedQ (q : Quirks) (app : App) (s : St) (h key : Nat) : Bool :=
+  app.hostKeyOK h key || (q.trustedKeysAccumulate && s.hostsSeen.any (fun h' => app.hostKeyOK h' key))
+
+def createAuthQ (q : Quirks) (app : App) (s : St) (r : Req) : St :=
+  match r.method with
+  | .hostSig sigOK key =>
+    if s.complete.isSome then s
+    else
+      match s.username with
+      | none => s
+      | some u =>
+        let h := effHost app r
+        let s := if q.trustedKeysAccumulate then { s with hostsSeen := s.hostsSeen ++ [h] } else s
+        if keyTrustedQ q app s h key && sigOK then
+          { s with auth := some ⟨u, r, s.nVal, true, none⟩, nVal := s.nVal + 1 }
+        else sendFailure { s with log := s.log ++ [.checkHost u h h key (keyTrustedQ q app s h key) sigOK none] }
+  | _ => createAuth app s r
+
+def afterBeginQ (q : Quirks) (app : App) (s : St) (calledUser : Nat) (r : Req) : St :=
+  let s := { s with begun := some calledUser }
+  if app.needsAuth calledUser then createAuthQ q app s r else sendSuccess s
+
+def onReqQ (q : Quirks) (app : App) (s : St) (r : Req) : St :=
+  if s.closed then s
+  else if s.complete.isSome then
+    (if s.final then { s with closed := true } else s)
+  else
+    let beginAuth := s.begun != some r.user
+    let s1 := { s with username := some r.user, seq := s.seq + 1, auth := none,
+                       keyOpts := if q.staleKeyOptions then s.keyOpts else none }
+    if beginAuth then
+      let s2 := { s1 with begun := none, log := s1.log ++ [.begin r.user], nBegin := s1.nBegin + 1 }
+      if app.beginAsync then { s2 with tasks := s2.tasks ++ [⟨s1.seq, r.user, s1.nBegin, r⟩] }
+      else afterBeginQ q app s2 r.user r
+    else createAuthQ q app s1 r
+
+def onBeginDoneQ (q : Quirks) (app : App) (s : St) (k : Nat) : St :=
+  if s.closed then s else
+  match s.tasks.find? (·.beginIdx = k) with
+  | none => s
+  | some t =>
+    let s1 := { s with tasks := s.tasks.filter (·.beginIdx ≠ k) }
+    if t.seq ≠ s1.seq then s1
+    else afterBeginQ q app s1 t.calledUser t.req
+
+def onValDoneQ (q : Quirks) (app : App) (s : St) (k : Nat) : St :=
+  match s.auth with
+  | some a =>
+    match a.req.method with
+    | .hostSig sigOK key =>
+      if s.closed then s
+      else if a.valIdx ≠ k ∨ a.awaiting = false then s
+      else
+        let h := effHost app a.req
+        let hu := if q.claimedHostToApp then a.req.cred else h
+        let ok := app.hostUserOK a.user hu
+        let s1 := { s with log := s.log ++ [.checkHost a.user h hu key (keyTrustedQ q app s h key) sigOK (some ok)] }
+        if keyTrustedQ q app s h key && sigOK && ok then sendSuccess s1 else sendFailure s1
+    | _ => onValDone app s k
+  | none => onValDone app s k
+
+/-- pre-repair `_process_info_response`: `create_task` cancels the object's running task (a pending challenge or
+    validation) and validates this response -/
+def onInfoPreFix (s : St) (c : Nat) : St :=
+  if s.closed then s
+  else
+    match s.auth with
+    | none => { s with closed := true }
+    | some a =>
+      match a.req.method with
+      | .kbdint =>
+        { s with auth := some { a with valIdx := s.nVal, awaiting := true, resp := some c }, nVal := s.nVal + 1 }
+      | _ => { s with out := s.out ++ [.unimpl] }
+
+def stepQ (q : Quirks) (app : App) (s : St) : Ev → St
+  | .req r => onReqQ q app s r
+  | .beginDone k => onBeginDoneQ q app s k
+  | .valDone k => onValDoneQ q app s k
+  | .other => if s.complete.isSome then { s with final := true } else { s with closed := true }
+  | .info c => if q.earlyInfoResponse then onInfoPreFix s c else onInfo s c
+  | .authMsg => onAuthMsg s
+
+def runQ (q : Quirks) (app : App) (evs : List Ev) : St := evs.foldl (stepQ q app) {}
+
+/-! ### the request handling before the repairs of F1 (kept to state the witnesses of defect F1 and of its second
+form; everything but the request handling is shared with the current code) -/
 
 /-- `_process_userauth_request` after the first repair (1ef8311) only: requests abort what is in progress, but
     `begin_auth` is still skipped whenever the user name did not change — even if `begin_auth` never completed
